@@ -242,11 +242,11 @@ var profiles = []profile{
 }
 
 type config struct {
-	hasher  string
-	prof    profile
-	labels  []int // indices into universe
-	maxSet  int // max node-set size for the permutation sweep
-	keys    []string
+	hasher string
+	prof   profile
+	labels []int // indices into universe
+	maxSet int   // max node-set size for the permutation sweep
+	keys   []string
 }
 
 func perms(n int) [][]int {
@@ -329,7 +329,7 @@ type violation struct {
 
 type counters struct {
 	calls, permBuilds, removals, additions, reordered, refTies, rehashScores, setKeys int64
-	distinct                                                                         map[string]struct{}
+	distinct                                                                          map[string]struct{}
 }
 
 // checkKey runs every node set / permutation / removal / addition for one key.
@@ -490,6 +490,163 @@ func checkKey(cfg *config, sets [][]int, key string, c *counters, report func(vi
 	}
 }
 
+// ---------------------------------------------------------------------------
+// History phase: one LONG-LIVED ring. Every sequence of AddNode / RemoveNode /
+// "look up all test keys" operations up to the depth bound, started from every
+// freshly built ring of <= 3 of 4 labels in every insertion order, is run on
+// one real RendezvousHash; each lookup must equal the list of a ring built
+// fresh from the current node set and be sorted by the reference score.
+
+var histKeys = []string{"0000", "00ff", "a1b2", "7fff", "ffff", "0A", "FF", "3c",
+	"e3b0c44298fc1c149afbf4c8996fb92427ae41e4649b934ca495991b7852b855",
+	"6b86b273ff34fce19d6b804eff5a3f5747ada4eaa22f1d49c01e52ddb7875b4b"}
+
+func historyPhase(run *evid.Run, hasher string, prof profile, labels []int, depth int) (execs, lookups int) {
+	type op struct {
+		kind  byte // 'a','r','l'
+		label int
+	}
+	ref := map[string]map[string]float64{}
+	for _, key := range histKeys {
+		kb, _ := hex.DecodeString(key)
+		ref[key] = map[string]float64{}
+		for _, i := range labels {
+			sc, _ := refScore(hasher, kb, universe[i], prof.weights[i])
+			ref[key][universe[i]] = sc
+		}
+	}
+	outcomes := map[string]struct{}{}
+	var starts [][]int
+	for _, sub := range subsets(labels, 3) {
+		for _, p := range permTab[len(sub)] {
+			o := make([]int, len(sub))
+			for i, ix := range p {
+				o[i] = sub[ix]
+			}
+			starts = append(starts, o)
+		}
+	}
+	starts = append(starts, []int{})
+	var hist []op
+	describe := func(start []int, h []op) string {
+		var b strings.Builder
+		b.WriteString("start[")
+		for i, l := range start {
+			if i > 0 {
+				b.WriteByte(' ')
+			}
+			b.WriteString(universe[l])
+		}
+		b.WriteString("]")
+		for _, o := range h {
+			switch o.kind {
+			case 'a':
+				b.WriteString(" add(" + universe[o.label] + ")")
+			case 'r':
+				b.WriteString(" remove(" + universe[o.label] + ")")
+			default:
+				b.WriteString(" lookup")
+			}
+		}
+		return b.String()
+	}
+	runSeq := func(start []int, h []op) {
+		execs++
+		rh := newReal(hasher)
+		var cur []int // current members in insertion order
+		for _, l := range start {
+			rh.AddNode(universe[l], prof.weights[l])
+			cur = append(cur, l)
+		}
+		for step, o := range h {
+			switch o.kind {
+			case 'a':
+				rh.AddNode(universe[o.label], prof.weights[o.label])
+				cur = append(cur, o.label)
+			case 'r':
+				rh.RemoveNode(universe[o.label])
+				for i, l := range cur {
+					if l == o.label {
+						cur = append(cur[:i:i], cur[i+1:]...)
+						break
+					}
+				}
+			case 'l':
+				// fresh ring with the same nodes, inserted in canonical (index) order
+				canon := append([]int{}, cur...)
+				sort.Ints(canon)
+				fresh := newReal(hasher)
+				for _, l := range canon {
+					fresh.AddNode(universe[l], prof.weights[l])
+				}
+				for _, key := range histKeys {
+					for _, n := range []int{len(cur), 1, 2} {
+						lookups++
+						got := labelsOf(rh.GetOrderedNodes(key, n))
+						want := labelsOf(fresh.GetOrderedNodes(key, n))
+						bad := ""
+						if !eq(got, want) {
+							bad = "long-lived ring answers differently from a fresh ring with the same nodes"
+						}
+						for i := 0; bad == "" && i+1 < len(got); i++ {
+							if !(ref[key][got[i]] >= ref[key][got[i+1]]) {
+								bad = "long-lived ring: list not sorted by descending reference score"
+							}
+						}
+						if bad != "" {
+							run.Violation(bad+" (hasher "+hasher+")", map[string]interface{}{
+								"history": describe(start, h[:step+1]), "key": key, "n": n, "got": got, "fresh_ring": want})
+							return
+						}
+						if n == len(cur) && len(cur) >= 2 {
+							outcomes[hasher+"|hist|"+strings.Join(got, ">")] = struct{}{}
+						}
+					}
+				}
+			}
+		}
+	}
+	var rec func(start []int, members map[int]bool, d int)
+	rec = func(start []int, members map[int]bool, d int) {
+		if d == 0 {
+			if len(hist) > 0 && hist[len(hist)-1].kind == 'l' {
+				runSeq(start, hist)
+			}
+			return
+		}
+		// a shorter history ending in a lookup is a prefix of a longer one; only
+		// maximal sequences are executed, every lookup on the way is checked.
+		for _, l := range labels {
+			k := byte('a')
+			if members[l] {
+				k = 'r'
+			}
+			members[l] = !members[l]
+			hist = append(hist, op{k, l})
+			rec(start, members, d-1)
+			hist = hist[:len(hist)-1]
+			members[l] = !members[l]
+		}
+		if len(hist) == 0 || hist[len(hist)-1].kind != 'l' { // two lookups in a row add nothing
+			hist = append(hist, op{'l', 0})
+			rec(start, members, d-1)
+			hist = hist[:len(hist)-1]
+		}
+	}
+	for _, st := range starts {
+		m := map[int]bool{}
+		for _, l := range st {
+			m[l] = true
+		}
+		hist = hist[:0]
+		rec(st, m, depth)
+	}
+	for k := range outcomes {
+		run.Distinct(k)
+	}
+	return
+}
+
 func indexOf(l string) int {
 	for i, u := range universe {
 		if u == l {
@@ -596,7 +753,7 @@ func main() {
 			{"murmur3", profiles[1], []int{2, 3, 4, 5}, 4, all},
 		}
 	}
-	run.Rule = "one evaluation = one real GetOrderedNodes call; enumerated: every key of the key space x every node set (all subsets up to the size bound of the label universe) x every insertion permutation of the set x every single-node RemoveNode(+re-AddNode) x every single-node AddNode, per hasher and weight profile; a case is distinct/non-trivial when it is a different (hasher, weights, resulting order) with >= 2 nodes"
+	run.Rule = "one evaluation = one real GetOrderedNodes call; enumerated: every key of the key space x every node set (all subsets up to the size bound of the label universe) x every insertion permutation of the set x every single-node RemoveNode(+re-AddNode) x every single-node AddNode, per hasher and weight profile; plus, on ONE long-lived ring, every sequence of AddNode/RemoveNode/lookup operations up to depth 5 (quick) / 7 (thorough) from every start ring of <= 3 of 4 labels in every insertion order, each lookup (10 keys: four-hex, two-hex, 64-hex; n = len, 1, 2) compared with a ring built fresh from the same node set and with the reference order; a case is distinct/non-trivial when it is a different (hasher, weights, resulting order) with >= 2 nodes"
 	run.Assume("small-scope: node sets of size <= 4 (quick) / <= 5 (thorough) drawn from 4 (quick) / 6 (thorough) of 6 fixed labels (volume paths and host:port addresses); weights uniform 100, two fixed mixed profiles over {1,100,1000} and (for the rehash-forcing hasher) two all-different profiles")
 	run.Assume("keys: all 65536 four-hex keys, all 256 two-hex keys, a fixed table of 64-hex keys; only well-formed (even-length) hex keys -- Score is NaN for undecodable keys and the statement does not define an order for them")
 	run.Assume("reference score: own murmur3-x64-128 (cross-checked at startup against spaolacci/murmur3 on all tail lengths), low 53 bits / 2^53, rehash of the 8 hash bytes when those bits are zero, -w/ln(f); sha256 variant: 256-bit integer rounded to 53 bits / (2^256-1); reference and implementation both use math.Log of the Go runtime")
@@ -658,6 +815,39 @@ func main() {
 		}
 		wg.Wait()
 		run.Set(fmt.Sprintf("config_%d", ci), fmt.Sprintf("hasher=%s weights=%s labels=%d sets<=%d (%d sets) keys=%d", cfg.hasher, cfg.prof.name, len(cfg.labels), cfg.maxSet, len(use), len(cfg.keys)))
+	}
+	// history phase (long-lived ring)
+	hdepth := 5
+	if run.Thorough() {
+		hdepth = 7
+	}
+	{
+		type hc struct {
+			hasher string
+			prof   profile
+			labels []int
+		}
+		hcs := []hc{{"murmur3", profiles[1], []int{2, 3, 4, 5}}, {"zeroing", profiles[3], []int{0, 2, 3, 5}}}
+		if run.Thorough() {
+			hcs = append(hcs, hc{"murmur3", profiles[0], []int{0, 1, 2, 3}}, hc{"sha256", profiles[1], []int{1, 2, 4, 5}})
+		}
+		var wg sync.WaitGroup
+		var he, hl int64
+		for _, c := range hcs {
+			c := c
+			wg.Add(1)
+			go func() {
+				defer wg.Done()
+				e, l := historyPhase(run, c.hasher, c.prof, c.labels, hdepth)
+				atomic.AddInt64(&he, int64(e))
+				atomic.AddInt64(&hl, int64(l))
+			}()
+		}
+		wg.Wait()
+		run.Set("history_depth", hdepth)
+		run.Set("history_sequences_executed", he)
+		run.Set("history_lookups_compared", hl)
+		run.Eval(int(hl))
 	}
 	if capped != 0 {
 		run.NotExhaustive("internal deadline reached before all key chunks were processed")
